@@ -395,7 +395,8 @@ def _one(r, convert, ent, pars, olds, mv, us, mode, label, extra=()):
         fk = {"clause": "crash", "exception": type(exc).__name__, "site": site}
         if site.startswith("_hand_convert_3"):
             fk["model"] = ent.current
-            fk["given"] = "complete" if len(olds) == len(ent.items) else "subset"
+            fk["given"] = ("sasview-3.1.2-defaults" if label.startswith("defaults") else
+                           "complete" if len(olds) == len(ent.items) else "subset")
         _finish(r, [("%s raised %s: %s" % (call, type(exc).__name__, exc), fk)], sub, nt, branches, "crash")
         return
 
